@@ -343,8 +343,10 @@ pub(crate) mod verif_c09 {
                 assert!(t.item.is_some());
             }
         }
-        kani::cover!(sub && n == 6);
-        kani::cover!(!sub && n == 12);
+        // (a 16 byte buffer holds 4x3 pixels only up to 8 bits per pixel)
+        let big = C::Raw::BITS_PER_PIXEL > 8;
+        kani::cover!(sub && (n == 6 || (big && n >= 2 && eff.size.width >= 2)));
+        kani::cover!(!sub && (n == 12 || (big && n >= 4 && eff.size.height >= 2)));
         kani::cover!(sub && n == 0);
     }
     //@harness prop=C09,C01 kind=bounded tier=quick class=P bound="image <= 4x3 (stream drained), sub-image areas with |coordinates| <= 8" fns=src/image/image_raw.rs::ImageRaw::draw;src/image/image_raw.rs::ImageRaw::draw_sub_image;src/image/sub_image.rs::SubImage::new;src/image/sub_image.rs::SubImage::draw;src/image/mod.rs::Image::draw
@@ -404,7 +406,7 @@ pub(crate) mod verif_c09 {
         let p = Point::new(q.x - o.x, q.y - o.y);
         assert!(last == img.pixel(p));
         assert!(writes <= 1);
-        kani::cover!(last.is_some() && p.x == 2 && p.y == 1);
+        kani::cover!(last.is_some() && p.y == 1 && (p.x == 2 || (C::Raw::BITS_PER_PIXEL > 16 && p.x == 1)));
     }
     //@harness prop=C09,C01,C02 kind=bounded tier=quick class=P bound="image <= 3x2" fns=src/image/mod.rs::Image::draw;src/image/mod.rs::Image::bounding_box
     #[kani::proof]
